@@ -264,7 +264,9 @@ META = {
                "memory image": "all 256 bytes symbolic; last accessible location = M[0] symbolic; at most one "
                                "unimplemented location (symbolic position) below it",
                "addressing": "GearShort object, int, DeviceShort object (values wider than 8 bytes: GearShort only)",
-               "faults": "one silence or framing error at any step (values up to 8 bytes)"},
+               "faults": "one silence or framing error at any step (values up to 8 bytes)",
+               "read_all, BOUNDED stand-in next to the loop rule": "every bank, latch on/off, GearShort, the loop unrolled for a "
+               "concrete last accessible location in {0,1,2,3,4,6,9} (banks >= 1: from 2); not counted as proved"},
     "assumptions": [
         "ASSUMED unit contract contracts/units/memory.py (IEC 62386-102 9.10 memory access; one bank, single hole)",
         "interpretation of the bytes is the specification of C11 (contracts/memory.py)",
